@@ -46,7 +46,7 @@ func c07Vocabulary() []vocabEntry {
 	return out
 }
 
-var c07Paths = []string{"registry", "jsonTop", "jsonNested", "jsonList", "gobTop", "gobNested"}
+var c07Paths = []string{"registry", "jsonTop", "jsonNested", "jsonList", "jsonItemList", "gobTop", "gobNested", "gobList", "gobItemList"}
 
 type c07Cell struct {
 	Name  string `json:"name"`
@@ -85,6 +85,16 @@ func withHooks(on bool, f func()) {
 	f()
 }
 
+// c07Pick: the member of a decoded list that is not the fixed second member
+func c07Pick(col ap.ItemCollection) ap.Item {
+	for _, m := range col {
+		if !ap.IsNil(m) && string(m.GetLink()) != "https://example.com/second" {
+			return m
+		}
+	}
+	return nil
+}
+
 func c07Run(cell c07Cell) (goType string, idOK, markerOK bool, it ap.Item, pan string) {
 	doc := fmt.Sprintf(`{"id":%q,"type":%q,"name":"marker"}`, c07ID, cell.Name)
 	if cell.Name == "" {
@@ -117,6 +127,40 @@ func c07Run(cell c07Cell) (goType string, idOK, markerOK bool, it ap.Item, pan s
 				outer, _ := ap.UnmarshalJSON([]byte(`{"id":"https://example.com/outer","type":"Collection","items":[` + doc + `,"https://example.com/an-iri"]}`))
 				if c, ok := outer.(*ap.Collection); ok && len(c.Items) > 0 && !ap.IsIRI(c.Items[0]) {
 					it = c.Items[0]
+				}
+			case "jsonItemList":
+				// a list in an item-typed (single value) position
+				outer, _ := ap.UnmarshalJSON([]byte(`{"id":"https://example.com/outer","type":"Create","object":[` + doc + `,{"id":"https://example.com/second","type":"Note"}]}`))
+				if a, ok := outer.(*ap.Activity); ok {
+					_ = ap.OnItemCollection(a.Object, func(col *ap.ItemCollection) error {
+						it = c07Pick(*col)
+						return nil
+					})
+				}
+			case "gobList", "gobItemList":
+				second := &ap.Object{ID: "https://example.com/second", Type: ap.NoteType}
+				var outerIn ap.Item = &ap.OrderedCollection{ID: "https://example.com/outer", Type: ap.OrderedCollectionType, OrderedItems: ap.ItemCollection{mk(), second}}
+				if cell.Via == "gobItemList" {
+					outerIn = &ap.Activity{ID: "https://example.com/outer", Type: ap.CreateType, Object: ap.ItemCollection{mk(), second}}
+				}
+				b, err := ap.GobEncode(outerIn)
+				if err == nil && len(b) > 0 {
+					outer, _ := ap.GobDecode(b)
+					var l ap.Item
+					switch o := outer.(type) {
+					case *ap.OrderedCollection:
+						l = o.OrderedItems
+					case *ap.Activity:
+						l = o.Object
+					}
+					if ap.IsItemCollection(l) {
+						_ = ap.OnItemCollection(l, func(col *ap.ItemCollection) error {
+							it = c07Pick(*col)
+							return nil
+						})
+					} else if !ap.IsNil(l) {
+						it = l // whatever came back instead of the list
+					}
 				}
 			case "gobTop":
 				b, err := ap.GobEncode(mk())
@@ -223,7 +267,7 @@ func init() {
 			byName[voc[i].Name] = &voc[i]
 		}
 		extra := []string{"", "Foo", "note", "Emoji", "IRI", "ItemCollection"}
-		c.Rule = fmt.Sprintf("exhaustive: %d vocabulary names + %d other names (empty, unknown, wrong case, internal pseudo types) x 6 paths (registry, JSON top-level / nested in an item position / in a list, gob top-level / nested) x hooks unset/set (extending hooks that delegate to the defaults). Per cell: reflect type, id, marker property, family lists, IsObject/IsLink/IsCollection, family helper. Non-trivial = a vocabulary name.", len(names), len(extra))
+		c.Rule = fmt.Sprintf("exhaustive: %d vocabulary names + %d other names (empty, unknown, wrong case, internal pseudo types) x 9 paths (registry, JSON top-level / nested in an item position / in a list property / in a list held by an item position, gob top-level / nested / in a list property / in a list held by an item position) x hooks unset/set (extending hooks that delegate to the defaults). Per cell: reflect type, id, marker property, family lists, IsObject/IsLink/IsCollection, family helper. Non-trivial = a vocabulary name.", len(names), len(extra))
 		for _, n := range append(append([]string{}, names...), extra...) {
 			for _, via := range c07Paths {
 				for _, hooks := range []bool{false, true} {
